@@ -58,7 +58,8 @@ MOf(e) == [kind |-> e.op, chart |-> IF e.chart = "" THEN "none" ELSE e.chart,
            replace |-> e.flags.replace, atomic |-> e.flags.atomic, cleanup |-> e.flags.cleanupOnFail,
            keep |-> e.flags.keepHistory, nohooks |-> e.flags.noHooks, lim |-> e.flags.maxHistory,
            ver |-> e.flags.version, dry |-> e.flags.dryRun, takeown |-> e.flags.takeOwnership,
-           clientOnly |-> e.flags.clientOnly, createNS |-> e.flags.createNamespace, skipCRDs |-> e.flags.skipCRDs, force |-> e.flags.force, install |-> e.flags.install]
+           clientOnly |-> e.flags.clientOnly, createNS |-> e.flags.createNamespace, skipCRDs |-> e.flags.skipCRDs, force |-> e.flags.force, install |-> e.flags.install,
+           incCRDs |-> e.flags.includeCRDs]
 
 LabOf(e) == Lab(e.proc, "call", e.kind, e.verb, e.id, e.ok, e.inj)
 
